@@ -35,10 +35,15 @@ ShapesGates2 == {Shp(pg, <<Blk(<<1>>, 1, 0, bg), Blk(<<1>>, 1, 0, {})>>, 0) : pg
 \* two crashes on the smallest shapes; one crash on shapes with checks and continuous checks
 ShapesCrash2 == {Shp({}, <<Blk(<<2>>, 1, 0, {})>>, 0), Shp({}, <<Blk(<<1, 1>>, 2, 0, {})>>, 0)}
 ShapesCrashChk == {Shp({"cont"}, <<Blk(<<1>>, 1, 0, {"pre"})>>, 0), Shp({"bypass"}, <<Blk(<<1>>, 1, 0, {"deferred"})>>, 0),
-                   Shp({"pre"}, <<Blk(<<1, 1>>, 1, 1, {"bypass"})>>, 0)}
+                   Shp({"pre"}, <<Blk(<<1, 1>>, 1, 1, {"bypass"})>>, 0),
+                   Shp({}, <<Blk(<<1>>, 1, 0, {"pre", "cont"}), Blk(<<1>>, 1, 0, {})>>, 0)}
 \* liveness: every plan reaches "finished" under weak fairness, also across a crash, also with continuous checks
 ShapesLive == {Shp({"cont"}, <<Blk(<<1>>, 1, 0, {"pre", "cont"})>>, 0), Shp({}, <<Blk(<<1, 1>>, 2, 0, {"cont", "deferred"})>>, 0)}
 ShapesLiveCrash == {Shp({"pre", "deferred"}, <<Blk(<<1>>, 1, 0, {"post"})>>, 0), Shp({}, <<Blk(<<1, 1>>, 2, 1, {})>>, 0)}
+\* deeper crash exploration (thorough tier / background): two-action sequences with every block-level group, tolerance and concurrency
+ShapesCrashDeep == {Shp({}, <<Blk(<<2, 1>>, 2, 1, {"pre", "cont", "post", "deferred"})>>, 0),
+                    Shp({"cont", "deferred"}, <<Blk(<<2>>, 1, 0, {"cont"}), Blk(<<1>>, 1, 0, {"deferred"})>>, 0),
+                    Shp({"bypass", "pre", "post"}, <<Blk(<<1, 1>>, 1, 0, {"bypass", "post"})>>, 0)}
 OkPerm == {"ok", "perm"}
 OkTrPerm == {"ok", "tr", "perm"}
 All4 == {"ok", "tr", "perm", "wrongtype"}
